@@ -81,6 +81,14 @@ def run(cmd, timeout, cwd=SCR, env=ENV):
         return 124, "timeout"
 
 n = 0
+done = set()
+if os.path.exists(out_path):
+    for l in open(out_path):
+        try:
+            d = json.loads(l)
+            done.add((d["file"], d["line"], d["op"], d["mutated"]))
+        except Exception:
+            pass
 out = open(out_path, "a")
 try:
     for f in files:
@@ -90,6 +98,8 @@ try:
         anchored = [x for x in SPEED if x in set(anch.get(f, []) + ALWAYS)]
         props = anchored + [x for x in SPEED if x not in anchored]  # anchored checks first, then every other one
         for i, op, old, new in mutants_of(f, lines):
+            if (f, i + 1, op, new.strip()) in done:
+                continue  # already in the report (resumed run)
             if limit is not None and n >= limit: raise SystemExit
             n += 1
             mutated = lines[:i] + ([new] if new else []) + lines[i+1:]
